@@ -3,7 +3,7 @@
     Riff/RiffGrammar (container specification), Riff/MuxView (what "put in" means). *)
 From Coq Require Import List ZArith Lia Bool.
 From Webp Require Import Base.Res Base.Bytes Riff.RiffGrammar Riff.DemuxModel Riff.DemuxTotal
-  Riff.MuxModel Riff.MuxView Riff.MuxProofs Riff.MuxRefuted Riff.MuxRoundtrip.
+  Riff.MuxModel Riff.MuxView Riff.MuxProofs Riff.MuxRefuted Riff.MuxRoundtrip Riff.MuxWf.
 From WebpGen Require Consts.
 Import ListNotations.
 Open Scope Z_scope.
@@ -34,6 +34,53 @@ Theorem C14_simple_layout_roundtrip_partial : forall fx dfx data fo m,
     end.
 Proof. exact simple_layout_roundtrip. Qed.
 Print Assumptions C14_simple_layout_roundtrip_partial.
+
+(** C14 for the current code, all layouts (simple, VP8X still, animated with or without
+    ALPH sub-chunks), EVERY history of Muxer calls satisfying the hypotheses whose final
+    state is outside the still-canvas class (explicit canvas different from the picture
+    on a still image: there the statement is false, C14_current_still_canvas_refuted):
+    Assemble returns an error, or bytes that the independent container grammar accepts
+    (RiffGrammar.wf) and that demux to exactly the view of what was put in; never panics. *)
+Theorem C14_mux_demux_roundtrip : forall ops,
+  Forall op_ok ops ->
+  let m := run ops in
+  still_canvas_ok m ->
+  match assemble repaired m with
+  | Err _ => True
+  | Panic => False
+  | Ok bs =>
+    wf bs = true /\
+    match parse true bs with
+    | Ok d => view_of_demux d = Some (view_of_mux m)
+    | _ => False
+    end
+  end.
+Proof. exact roundtrip_current. Qed.
+Print Assumptions C14_mux_demux_roundtrip.
+
+Theorem C14_animated_files_well_formed : forall m bs,
+  mok m -> is_animated m = true -> assemble repaired m = Ok bs -> wf bs = true.
+Proof. exact animated_wf. Qed.
+Print Assumptions C14_animated_files_well_formed.
+
+(** the hypotheses (incl. still_canvas_ok) are met by a non-trivial history *)
+Theorem C14_mux_demux_roundtrip_example :
+  Forall op_ok [AddFrame w_alph (opts 10 2 4); AddFrame w_vp8 (opts 20 0 0); SetLoopCount 3; SetXMP (Some [])] /\
+  still_canvas_ok (run [AddFrame w_alph (opts 10 2 4); AddFrame w_vp8 (opts 20 0 0); SetLoopCount 3; SetXMP (Some [])]).
+Proof.
+  split; [repeat (apply Forall_cons; [vm_compute; reflexivity|]); apply Forall_nil|].
+  left. vm_compute. reflexivity.
+Qed.
+Print Assumptions C14_mux_demux_roundtrip_example.
+
+(** Metadata above maxMetadataSize (excluded by the hypotheses; finding meta-too-large):
+    the demuxer's chunk switch refuses such a chunk whatever else the file holds, while
+    validate / Assemble of the current muxer do not look at blob sizes. *)
+Theorem C14_meta_too_large_demux_rejects : forall d id n p rest,
+  (id = FCC_ICCP \/ id = FCC_EXIF \/ id = FCC_XMP) -> len p > maxMetadataSize ->
+  ext_dispatch d (mkchunk id n p) rest = Err E_meta.
+Proof. exact meta_too_large_demux_rejects. Qed.
+Print Assumptions C14_meta_too_large_demux_rejects.
 
 (** Extended layouts, EVERY history (induction over the call history + invariants of the
     chunk loops): whenever the current Assemble succeeds and writes a VP8X file — a still
